@@ -110,6 +110,7 @@ FLAVOURS = {
     "slack": dict(cc="gcc", cflags=["-O2", "-fPIC"], noslack=False),
     "noslack": dict(cc="gcc", cflags=["-O2", "-fPIC"], noslack=True),
     "o0": dict(cc="gcc", cflags=["-O0", "-fPIC"], noslack=False),
+    "o3": dict(cc="gcc", cflags=["-O3", "-fPIC"], noslack=False),
     "asan": dict(cc="clang", cflags=["-O1", "-g", "-fno-omit-frame-pointer", "-fsanitize=address,undefined",
                                       "-fno-sanitize-recover=undefined", "-fno-sanitize=alignment"], noslack=False),
 }
